@@ -18,6 +18,13 @@ def tables(tier, seed):
         w = load.index(min(load))
         load[w] += shipped.n_triples(kind, kw)
         jobs[w][0].append({"op": "shippedtab", "id": f"g{i}", "target": shipped.T[kind], "kwargs": kw, "model_args": margs, "_kind": kind})
+    # twins: same class and structural parameters, other real-valued cost / price coefficients, built in the same process right after their base
+    for (bi, kind, kw2, margs2) in shipped.twins(g, seed):
+        for ops, _ in jobs:
+            pos = next((k for k, o in enumerate(ops) if o["id"] == f"g{bi}"), None)
+            if pos is not None:
+                n_tw = sum(1 for o in ops if o["id"].startswith(f"g{bi}t"))
+                ops.insert(pos + 1 + n_tw, {"op": "shippedtab", "id": f"g{bi}t{n_tw}", "target": shipped.T[kind], "kwargs": kw2, "model_args": margs2, "_kind": kind, "_twin": True})
     jobs = [j for j in jobs if j[0]]
     return jobs, session.run_sessions_parallel(jobs, workers=W)
 
@@ -47,6 +54,8 @@ def run(tier, seed):
             ntr = len(ti["nxt"])
             res.evaluations += ntr
             res.count(f"{kind}:params"); res.count(f"{kind}:triples", ntr)
+            if op.get("_twin"):
+                res.count(f"{kind}:twin-other-coefficients")
             if kw.get("max_useful_life", 1) > 1 or kw.get("lead_time", 1) > 1:
                 res.nontrivial.add(line)
             case = {"kind": kind, "kwargs": kw, "model_args": op["model_args"]}
